@@ -16,6 +16,7 @@ H  landing index of real spectra of a bath-free monomer at grid tones vs the
    of squared dipoles whatever the couplings, Hamiltonian / dipole operator /
    relaxation tensor unchanged by the calculation.
 """
+import os
 import math
 import itertools
 
@@ -89,6 +90,73 @@ def main():
                         ck.model_drift("landing index %d differs from the "
                                        "specified %d (line still within the "
                                        "grid resolution)" % (p, want_p))
+
+    # ------------- calculator state over call histories (AbsCalc.tla)
+    # bootstrap / new realisation of the system / calculate in any order:
+    # the returned axis carries the transition energy at the line maximum
+    ck.tlc("AbsCalc", "AbsCalc.cfg", workers=4)
+    ck.tlc("AbsCalc", "AbsCalc_cumulative.cfg", count=False,
+           expect_violation="LineOnItsEnergy")
+    import tempfile
+    import shutil
+    from harness import tlaparse
+    dtmp = tempfile.mkdtemp(prefix="c11ac_")
+    try:
+        pref = os.path.join(dtmp, "tr")
+        nsim = 120 if ck.thorough else 30
+        ck.tlc("AbsCalc", "AbsCalc_sim.cfg",
+               simulate="file=%s,num=%d" % (pref, nsim), depth=8, workers=1,
+               seed=ck.seed + 9, count=False)
+        behs = tlaparse.load_behaviours(pref)
+    finally:
+        shutil.rmtree(dtmp, ignore_errors=True)
+    if len(behs) < nsim // 2:
+        raise MachineryFailure("too few AbsCalc behaviours")
+    NtA, dtA = 16, 1.0                           # Half = Nt // 2 = 8
+    dwA = 2 * math.pi / (2 * NtA * dtA)
+    for bi, beh in enumerate(behs):
+        taA = qr.TimeAxis(0.0, NtA, dtA)
+        om0 = beh[0][1]["om"]
+        hist = [["system", om0]]
+        rp = dict(kind="calculator-history", history=hist)
+        with ck.guarded("line-on-its-energy", "calculator-history", rp, rp):
+            with qr.energy_units("int"):
+                mol = qr.Molecule([0.0, om0 * dwA])
+                mol.set_dipole(0, 1, [1.0, 0.0, 0.0])
+                calc = qr.AbsSpectrumCalculator(taA, system=mol)
+                ncalc = 0
+                for act, st in beh[1:]:
+                    a = st["_args"]
+                    if act == "Bootstrap":
+                        hist.append(["bootstrap", a[0]])
+                        calc.bootstrap(rwa=a[0] * dwA)
+                    elif act == "NewSystem":
+                        hist.append(["system", a[0]])
+                        mol.set_energy(1, a[0] * dwA)
+                    elif act == "Calculate":
+                        hist.append(["calculate"])
+                        sp = calc.calculate(raw=True)
+                        ax = numpy.array(sp.axis.data)
+                        pk = int(numpy.argmax(numpy.array(sp.data)))
+                        got = float(ax[pk]) / dwA
+                        ncalc += 1
+                        if abs(got - st["peak"]) > 0.5 + 1e-9:
+                            ck.violation(
+                                "line-on-its-energy",
+                                "calculator-history:offset:%+d" % int(round(
+                                    got - st["peak"])),
+                                dict(history=[list(h) for h in hist],
+                                     axis_value_in_steps=got,
+                                     transition_in_steps=st["peak"]),
+                                dict(kind="calculator-history",
+                                     history=[list(h) for h in hist]))
+                            break
+                    else:
+                        raise MachineryFailure("unknown action " + act)
+        ck.case("calculator-history", (bi, str(hist)), nontrivial=ncalc > 0
+                and sum(1 for h in hist if h[0] == "bootstrap") > 1,
+                sample=dict(history=[list(h) for h in hist]))
+        ck.traces_validated += 1
 
     # --------------------------------------------------- sampled aggregates
     def build(N, Ecm, Jcm, dips, reorg, cort, Nt=600, dt=2.0, scale=1.0,
